@@ -270,6 +270,11 @@ func runC06(c *fw.Ctx) {
 		}(w)
 	}
 	wg.Wait()
+	// concurrent Get/Put from 12 goroutines with a shadow set under the harness's lock (the same
+	// workload C20 runs under the race detector): duplicates and panics show without it, too
+	for r := 0; r < c.Pick(6, 40); r++ {
+		c20Pool(c, 500+r)
+	}
 	c06Writer(c)
 	for r := 0; r < c.Pick(4, 30); r++ {
 		c06WriteFailure(c, r)
@@ -449,6 +454,17 @@ func c06Writer(c *fw.Ctx) {
 					return
 				}
 			}
+			// exhaustion that lasts: nothing is acknowledged for 900 ms while 12 more messages arrive; what
+			// cannot get an identifier is dropped, nothing may go out with an identifier outside the range
+			for i := 0; i < 12; i++ {
+				total++
+				pub.Publish("c06/t", []byte(fmt.Sprintf("w%d-%d", r, total)), 1, false, kit.DefaultWait)
+			}
+			time.Sleep(900 * time.Millisecond)
+			if !scan() {
+				return
+			}
+			c.Observe("writer_long_exhaustions", 1)
 			// the slow subscriber goes away with deliveries still unacknowledged: after the next
 			// expiry sweeps every identifier must be back in the pool
 			for i := 0; i < 6; i++ {
